@@ -482,12 +482,14 @@ func (req *SrvReq) Flush() {
 // the returned fid. The user is responsible to call DecRef once it no
 // longer needs it.
 func (conn *Conn) FidGet(fidno uint32) *SrvFid {
+	// the reference is taken under the table's lock, so that the fid cannot
+	// drop to zero (and be destroyed) between the lookup and the IncRef
 	conn.Lock()
 	fid, present := conn.fidpool[fidno]
-	conn.Unlock()
 	if present {
 		fid.IncRef()
 	}
+	conn.Unlock()
 
 	return fid
 }
@@ -527,19 +529,20 @@ func (fid *SrvFid) IncRef() {
 // Decrease the reference count for the fid. When the
 // reference count reaches 0, the fid is no longer valid.
 func (fid *SrvFid) DecRef() {
+	conn := fid.Fconn
+	conn.Lock()
 	fid.Lock()
 	fid.refcount--
 	n := fid.refcount
 	fid.Unlock()
+	if n == 0 && conn.fidpool[fid.fid] == fid {
+		delete(conn.fidpool, fid.fid)
+	}
+	conn.Unlock()
 
-	if n > 0 {
+	if n != 0 {
 		return
 	}
-
-	conn := fid.Fconn
-	conn.Lock()
-	delete(conn.fidpool, fid.fid)
-	conn.Unlock()
 
 	if fop, ok := (conn.Srv.ops).(SrvFidOps); ok {
 		fop.FidDestroy(fid)
